@@ -161,6 +161,36 @@ pub struct Core {
     body: Option<Body>,
     body_panic: Option<String>,
     abort: Option<Status>,
+    // sleep sets (unbounded mode)
+    pub sleep_mode: bool,
+    sleep: Vec<(usize, Op)>,
+    inject_sleep: Option<Vec<(usize, Op)>>,
+    /// task and operation of the step in progress, what else it touched, whom it woke
+    step: Option<(usize, Op)>,
+    step_touched: Vec<usize>,
+    step_woken: Vec<usize>,
+    step_global: bool,
+    /// per choice point: enabled tasks (canonical order, with their pending operations) and the
+    /// sleep set in force at that node
+    pub nodes: Vec<Node>,
+    /// index of the first choice point at or after which every enabled task was asleep
+    pub sleep_blocked_at: Option<usize>,
+}
+
+#[derive(Clone, Debug, Default)]
+pub struct Node {
+    pub enabled: Vec<(usize, Op)>,
+    pub sleep: Vec<(usize, Op)>,
+}
+
+fn op_objects(op: Op) -> Option<Vec<usize>> {
+    // None = global (dependent with everything)
+    match op {
+        Op::Send(a) | Op::Recv(a) | Op::NetRead(a) | Op::NetWrite(a) => Some(vec![a]),
+        Op::Select(a, b) => Some(vec![a, b]),
+        Op::Join(_) => Some(vec![]),
+        Op::Lock(_) | Op::Wait(_) | Op::Barrier(_) | Op::Net(_) | Op::Sleep | Op::Global => None,
+    }
 }
 
 impl Core {
@@ -193,6 +223,15 @@ impl Core {
             body: None,
             body_panic: None,
             abort: None,
+            sleep_mode: false,
+            sleep: vec![],
+            inject_sleep: None,
+            step: None,
+            step_touched: vec![],
+            step_woken: vec![],
+            step_global: false,
+            nodes: vec![],
+            sleep_blocked_at: None,
         }
     }
 
@@ -220,7 +259,46 @@ impl Core {
             n: n as u16,
             c: c as u16,
         });
+        if self.sleep_mode {
+            while self.nodes.len() < self.trace.len() {
+                self.nodes.push(Node {
+                    enabled: vec![],
+                    sleep: self.sleep.clone(),
+                });
+            }
+        }
         c
+    }
+
+    /// Close the step in progress: a sleeping task stays asleep only if its pending operation is
+    /// independent of everything the step did.
+    fn end_step(&mut self) {
+        if let Some((t, op)) = self.step.take() {
+            let global = self.step_global || op_objects(op).is_none();
+            let mut objs = op_objects(op).unwrap_or_default();
+            objs.extend(self.step_touched.drain(..));
+            let woken = std::mem::take(&mut self.step_woken);
+            self.step_global = false;
+            self.sleep.retain(|(s, os)| {
+                if *s == t || global || woken.contains(s) {
+                    return false;
+                }
+                if let Op::Join(j) = os {
+                    if *j == t {
+                        return false;
+                    }
+                }
+                if let Op::Join(j) = op {
+                    if j == *s {
+                        return false;
+                    }
+                }
+                match op_objects(*os) {
+                    None => false,
+                    Some(o2) => !o2.iter().any(|x| objs.contains(x)),
+                }
+            });
+        }
     }
 
     fn ensure_task(&mut self, t: usize) {
@@ -301,13 +379,69 @@ impl Scheduler for Sched {
             if has_clock {
                 ids.push(clock.unwrap());
             }
+            if !c.sleep_mode {
+                let k = if ids.len() == 1 {
+                    0
+                } else {
+                    c.decide(Kind::Task, ids.len())
+                };
+                c.last_running = Some(ids[k]);
+                return Some(STaskId::from(ids[k]));
+            }
+            // ---- sleep-set mode ----
+            c.end_step();
+            for t in &ids {
+                c.ensure_task(*t);
+            }
+            let replaying = c.trace.len() < c.prefix.len();
             let k = if ids.len() == 1 {
+                if !replaying && c.sleep_blocked_at.is_none() && c.sleep.iter().any(|(s, _)| *s == ids[0]) {
+                    c.sleep_blocked_at = Some(c.trace.len());
+                }
                 0
+            } else if replaying {
+                // the branching node itself is the last point of the prefix: its sleep set comes
+                // with the work item
+                if c.trace.len() + 1 == c.prefix.len() {
+                    if let Some(sl) = c.inject_sleep.take() {
+                        c.sleep = sl;
+                    }
+                }
+                let k = c.decide(Kind::Task, ids.len());
+                let node = Node {
+                    enabled: ids.iter().map(|t| (*t, c.pending[*t])).collect(),
+                    sleep: c.sleep.clone(),
+                };
+                let i = c.trace.len() - 1;
+                c.nodes[i] = node;
+                k.min(ids.len() - 1)
             } else {
-                c.decide(Kind::Task, ids.len())
+                // default: the first enabled task that is not asleep
+                let awake = ids.iter().position(|t| !c.sleep.iter().any(|(s, _)| s == t));
+                let pos = c.trace.len();
+                let k = match awake {
+                    Some(k) => k,
+                    None => {
+                        if c.sleep_blocked_at.is_none() {
+                            c.sleep_blocked_at = Some(pos);
+                        }
+                        0
+                    }
+                };
+                c.trace.push(Point { k: Kind::Task, n: ids.len() as u16, c: k as u16 });
+                while c.nodes.len() < c.trace.len() - 1 {
+                    c.nodes.push(Node::default());
+                }
+                c.nodes.push(Node {
+                    enabled: ids.iter().map(|t| (*t, c.pending[*t])).collect(),
+                    sleep: c.sleep.clone(),
+                });
+                k
             };
-            c.last_running = Some(ids[k]);
-            Some(STaskId::from(ids[k]))
+            let t = ids[k];
+            c.step = Some((t, c.pending[t]));
+            c.last_running = Some(t);
+            Some(STaskId::from(t))
         })
     }
 
@@ -416,6 +550,11 @@ impl Rt for ShuttleRt {
         })
         .unwrap_or(false);
         if woke {
+            let _ = try_with_core(|c| {
+                if c.sleep_mode {
+                    c.step_woken.push(t);
+                }
+            });
             // a waiter woken by a peer can no longer be timed out: its timer is cancelled now,
             // not when it gets to run (it re-arms a timer if it has to wait again)
             let _ = try_with_core(|c| c.timers.retain(|x| x.2 != t));
@@ -424,6 +563,11 @@ impl Rt for ShuttleRt {
 
     fn spawn(&self, name: String, f: Box<dyn FnOnce() + Send>) -> TaskId {
         let parent = me();
+        with_core(|c| {
+            c.step_global = true;
+            c.ensure_task(parent);
+            c.pending[parent] = Op::Global;
+        });
         let h = shuttle::thread::Builder::new()
             .name(name.clone())
             .stack_size(STACK)
@@ -488,6 +632,11 @@ impl Rt for ShuttleRt {
         };
         let me = me();
         with_core(|c| {
+            if c.sleep_mode && c.trace.len() + 1 == c.prefix.len() {
+                if let Some(sl) = c.inject_sleep.take() {
+                    c.sleep = sl;
+                }
+            }
             let d = c.decide(k, arity);
             if k == Kind::Random {
                 // default answers rotate so that the default execution already spreads elements
@@ -573,6 +722,14 @@ impl Rt for ShuttleRt {
             Param::ObserveLinks => c.params.observe_links as usize,
         })
         .unwrap_or(0)
+    }
+
+    fn touch(&self, obj: usize) {
+        let _ = try_with_core(|c| {
+            if c.sleep_mode {
+                c.step_touched.push(obj);
+            }
+        });
     }
 
     fn hb_release(&self) -> u64 {
@@ -686,6 +843,8 @@ pub struct ExecResult {
     pub body_panic: Option<String>,
     pub log: Vec<Ev>,
     pub virtual_time: Duration,
+    pub nodes: Vec<Node>,
+    pub sleep_blocked_at: Option<usize>,
 }
 
 fn panic_text(p: &Box<dyn std::any::Any + Send>) -> String {
@@ -705,6 +864,8 @@ pub struct Request {
     pub order: Order,
     pub params: EnvParams,
     pub body: Body,
+    /// `Some(sleep set at the branching node)` = unbounded exploration with sleep sets
+    pub sleep: Option<Vec<(usize, Op)>>,
 }
 
 /// Called with the result of the previous execution (if any); returns the next one to run.
@@ -731,6 +892,8 @@ fn finish_core(core: Core) -> ExecResult {
         body_panic: core.body_panic,
         log: core.log,
         virtual_time: core.now,
+        nodes: core.nodes,
+        sleep_blocked_at: core.sleep_blocked_at,
     }
 }
 
@@ -747,6 +910,10 @@ impl Scheduler for BatchSched {
             Some(req) => {
                 let mut core = Core::new(req.prefix, req.order, req.params);
                 core.body = Some(req.body);
+                if let Some(sl) = req.sleep {
+                    core.sleep_mode = true;
+                    core.inject_sleep = Some(sl);
+                }
                 CORE.with(|c| *c.borrow_mut() = Some(core));
                 self.inner.new_execution()
             }
@@ -889,6 +1056,7 @@ pub fn run_once(prefix: Vec<Point>, order: Order, params: EnvParams, body: Body)
         order,
         params,
         body,
+        sleep: None,
     });
     run_many(Box::new(move |prev| {
         if let Some(p) = prev {
